@@ -150,7 +150,8 @@ def check_wait_signal(p, reach, r):
 def belt_store_classes(p):
     out = []
     for s in tables.discover_stores(p):
-        if 'move_to_ready_items' in s.methods and any(isinstance(n, ast.ExceptHandler) for n in ast.walk(s.methods['move_to_ready_items'].node)):
+        if 'move_to_ready_items' in s.methods and ('resume_all_move_processes' in s.methods or any(
+                isinstance(n, ast.ExceptHandler) for n in ast.walk(s.methods['move_to_ready_items'].node))):
             out.append(s)
     return out
 
@@ -318,25 +319,46 @@ def check_transitions(p, r):
         if chain is None:
             why = 'no dispatch on is_empty() in the behaviour loop'
         else:
-            tests = []
+            branches = []
             cur = chain
             while cur is not None:
-                tests.append((ast.unparse(cur.test).replace(' ', ''), cur.body))
-                cur = cur.orelse[0] if len(cur.orelse) == 1 and isinstance(cur.orelse[0], ast.If) else None
-            tt = [t for t, _ in tests]
-            tt = [t.replace('(not', 'not').replace('())', '()') for t in tt]
-            if not (len(tt) >= 3 and tt[0] == 'self.is_empty()' and tt[1] in ('notself.is_empty()andnotself.is_stalled()', 'notself.is_stalled()') and tt[2] == 'self.is_stalled()'):
-                why = f'the state dispatch is {tt}, expected empty / moving / stalled'
-            else:
-                want = [{'IDLE_STATE'}, {'MOVING_STATE'}, STALLED]
-                for (t, body), w in zip(tests, want):
+                branches.append((cur.test, cur.body))
+                if len(cur.orelse) == 1 and isinstance(cur.orelse[0], ast.If):
+                    cur = cur.orelse[0]
+                else:
+                    if cur.orelse:
+                        branches.append((None, cur.orelse))
+                    cur = None
+
+            def ev_(t, E, S):
+                if t is None:
+                    return True
+                if isinstance(t, ast.BoolOp):
+                    vs = [ev_(v, E, S) for v in t.values]
+                    return all(vs) if isinstance(t.op, ast.And) else any(vs)
+                if isinstance(t, ast.UnaryOp) and isinstance(t.op, ast.Not):
+                    return not ev_(t.operand, E, S)
+                if isinstance(t, ast.Call) and not t.args:
+                    nm = ast.unparse(t.func)
+                    if nm == 'self.is_empty':
+                        return E
+                    if nm == 'self.is_stalled':
+                        return S
+                raise ValueError(ast.unparse(t))
+            want = {(True, False): {'IDLE_STATE'}, (True, True): {'IDLE_STATE'}, (False, False): {'MOVING_STATE'}, (False, True): STALLED}
+            try:
+                for (E, S), w in want.items():
+                    taken = next((body for t, body in branches if ev_(t, E, S)), None)
                     got = set()
-                    for x in body:
-                        for c in ast.walk(x):
-                            if isinstance(c, ast.Call) and ast.unparse(c.func) == 'self.set_conveyor_state':
-                                got |= names_in(c)
-                    if got != w:
-                        why = why or f'branch `{t}` sets {sorted(got)}, expected {sorted(w)}'
+                    for x in (taken or []):
+                        for c_ in ast.walk(x):
+                            if isinstance(c_, ast.Call) and ast.unparse(c_.func) == 'self.set_conveyor_state':
+                                got |= names_in(c_)
+                    if got != w and not (E and got == set() and False):
+                        why = why or (f'when the belt is {"empty" if E else "not empty"} and {"stalled" if S else "not stalled"} the behaviour sets '
+                                      f'{sorted(got) or "no state"}, expected {sorted(w)}')
+            except ValueError as e_:
+                why = f'the state dispatch tests `{e_}`, which is not a combination of is_empty() / is_stalled()'
         (r.ok if not why else r.fail)('C13.R3', key3, 'empty → IDLE, moving → MOVING, stalled → STALLED_(NON)ACCUMULATING' if not why else why, src(b.module), b.node.lineno)
 
 
@@ -356,7 +378,7 @@ def check_gate(p, r):
         seen.add(fi.key)
         r.analysed_functions.add(fi.key)
         key = f'{fi.key}::accumulation-gate'
-        ex = paths.Explorer(p, s.ci.key, tracked=set(s.lists), atomic=set(), unroll=1)
+        ex = paths.Explorer(p, s.ci.key, tracked=set(s.lists), atomic=set(), unroll=1, split_bool_returns=True)
         bad = None
         n = 0
         for pa in ex.paths(fi):
@@ -372,16 +394,35 @@ def check_gate(p, r):
                 continue
             n += 1
             gate = False
-            for t, pol in conds:
-                if ('accumulation_mode_indicator' in t and '==True' in t and pol) or (t == 'self.accumulation_mode_indicator' and pol):
+            # (a) the path conditions imply that the exit is free (no ready item waiting)
+            from .. import lin as _lin
+            from .common import events_atoms as _ea
+            try:
+                if _lin.implies(_ea(evs[:gi]), ('<=', _lin.norm({'ready_items': 1}))):
                     gate = True
-                if t.replace('len(self.ready_items)==0', 'EXITFREE') != t and pol:
+            except _lin.NonLinear:
+                pass
+            # (b) or they test the accumulation flag / the no-accumulation gate / the one-insert-per-stall flag (by value, any spelling)
+            FLAGS = {('self', 'accumulation_mode_indicator'), ('self', 'noaccumulation_mode_on'), ('self', 'one_item_inserted')}
+            for e in evs[:gi]:
+                if e.kind != 'cond' or e.d.get('synthetic'):
+                    continue
+                t, pol = e.text.replace(' ', ''), e.polarity
+                ops = e.d.get('operands')
+                if ops and (ops[1] in FLAGS or ops[2] in FLAGS):
+                    flag = ops[1] if ops[1] in FLAGS else ops[2]
+                    other = ops[2] if ops[1] in FLAGS else ops[1]
+                    val = other[1] if other and other[0] == 'const' else None
+                    truth = (val is True or val == 1) if ops[0] == 'Eq' else (val is False or val == 0) if ops[0] == 'NotEq' else None
+                    if truth is not None:
+                        is_true = truth == pol          # the flag is known to be true on this path?
+                        if flag[1] == 'accumulation_mode_indicator' and is_true:
+                            gate = True
+                        if flag[1] in ('noaccumulation_mode_on', 'one_item_inserted') and not is_true:
+                            gate = True
+                if t == 'self.accumulation_mode_indicator' and pol:
                     gate = True
-                if t == 'self.noaccumulation_mode_on' and pol is False:
-                    gate = True
-                if t in ('self.one_item_inserted==False',) and pol:
-                    gate = True
-                if t == 'notself.noaccumulation_mode_on' and pol:
+                if t in ('self.noaccumulation_mode_on', 'self.one_item_inserted') and pol is False:
                     gate = True
             if not gate:
                 bad = pa
@@ -560,6 +601,9 @@ def check_interrupters(p, reach, r):
                 inside = fi.cls is not None and (fi.module, fi.cls) in belt_keys
                 recv = c.func.value
                 tracked = False
+                rtxt = ast.unparse(recv)
+                if not isinstance(recv, ast.Name) and ('process_info' in rtxt or 'active_move_processes' in rtxt or 'active_delayed_interrupt_processes' in rtxt):
+                    tracked = True
                 if isinstance(recv, ast.Name):
                     for m in walk_no_nested(fi.node):
                         if isinstance(m, ast.Assign) and any(isinstance(t, ast.Name) and t.id == recv.id for t in m.targets):
